@@ -18,8 +18,10 @@ CHECKS = {
                 text="Every knot interval of every shipped spline table (about 0.5M intervals in both configurations) is visited at its left knot and "
                      "at interior fractions, both table ends are straddled at 1e-12..1e-3, and the result is compared with an independent numpy "
                      "evaluation on independently parsed knots; the interval structure is covered completely, the continuum inside an interval "
-                     "is represented by up to 7 points (a cubic has 4 degrees of freedom).",
-                note="Trusts the Python data-file readers and numpy; 1e-7 upper-end band and duplicated abscissae are don't-care zones as "
+                     "is represented by up to 7 points (a cubic has 4 degrees of freedom). Every knot of the log-space cross-section tables is also queried at arguments whose "
+                     "transform, computed as the library computes it, IS the knot bit for bit (220 000 exact hits, incl. the duplicated abscissae at absorption edges); for "
+                     "tables kept in the argument's own space a value is due at the first and at the last knot themselves.",
+                note="Trusts the Python data-file readers and numpy; the 1e-7 upper-end band is a don't-care zone and at a duplicated abscissa either neighbouring value or their mean is accepted, as "
                      "documented in DESIGN.md; configuration K depends on tools/kissel_regen.py."),
     "C03": dict(level="exploration", engine="ENUM", ref="4/C03",
                 technique="exhaustive enumeration of every exported function over full discrete domains x structured continuous alphabet, contract oracle",
@@ -90,7 +92,7 @@ CHECKS = {
                 note="Differential oracle (C07, C01, C02, C05 decide compositions and elemental values); refractive index constants derived from header macros, rel. 1e-6."),
     "C13": dict(level="exploration", engine="ENUM", ref="4/C13",
                 technique="exhaustive enumeration of crystals x Miller cube x energies x Debye/angle/flag grids against metric-tensor, Bragg and explicit structure-factor references",
-                text="All 38 built-in crystals and 20/60 generated (triclinic) cells over the complete Miller cube, energy, Debye-factor, relative-angle and flag "
+                text="All 38 built-in crystals, 20/60 generated (triclinic) cells and 4/8 cells with 22 different elements in ascending, descending and shuffled order over the complete Miller cube, energy, Debye-factor, relative-angle and flag "
                      "grids; d-spacing against the reciprocal metric tensor, inversion and 1/n scaling, volumes, Bragg's law or an error, and the structure factor "
                      "against the explicit sum over atoms with the library's own atomic factors, additivity, Friedel's law and the forward reflection. For every distinct "
                      "d the energies hc/(2d) +- 6 ulps are evaluated and classified by the exact comparison lambda <=> 2d (theta = pi/2 exists at equality).",
@@ -102,7 +104,8 @@ CHECKS = {
                      "constant, macro family and wrapped prototype is compared (about 29 000 comparisons), plus version strings of all build/packaging files; every function the "
                      "compiler sees declared in the headers must be exported; every IDL constant must be a member of COMMON XRAYLIB (and every member assigned); a parameter that "
                      "carries the name of a C parameter must stand at its position; Pascal imports must bind the symbol their identifier names; Pascal wrapper bodies, Fortran call "
-                     "sites of BIND(C) interfaces and Cython def bodies must forward to their own C function with their own arguments in order.",
+                     "sites of BIND(C) interfaces and Cython def bodies must forward to their own C function with their own arguments in order; every struct member converted in a SWIG "
+                     "out-typemap (Lua, Python, Perl, Ruby, PHP) must use a constructor of its C type.",
                 note="Non-C bindings are lexed, never compiled (no Fortran/Pascal/Cython/SWIG/IDL toolchain here); struct layouts and reshaped object wrappers are not compared."),
     "C14": dict(level="model_checking", engine="HIST", ref="4/C14",
                 technique="explicit-state BFS over operation histories of the real crystal-collection code (fork per state), to closure, against a dictionary model, repeated under ASan/UBSan",
@@ -110,7 +113,8 @@ CHECKS = {
                      "in a fork of a pristine process; every enabled operation of the alphabet is executed from every state in a further fork and compared with a "
                      "dictionary model (result, error, sorted duplicate-free content, recomputed volumes, independent copies, built-in collection intact, no live "
                      "blocks after teardown). The core alphabet (21 ops incl. capacity-crossing start states and colliding crystal files) is explored to closure, so "
-                     "the result holds for histories of any length over it; a fourth alphabet with atom-less crystals (live atom buffer) is also closed; wider alphabets and "
+                     "the result holds for histories of any length over it; a fourth alphabet with atom-less crystals (live atom buffer) and a fifth with additions that are rejected late "
+                     "(the library's own copy cannot be made) are also closed; wider alphabets and "
                      "the built-in collection at its fixed capacity are depth bounded.",
                 note="Finite name and file alphabets; closure is relative to them. ReadFile is read as all-or-nothing. UBSan's nonnull-attribute check is disabled (bsearch on an empty array)."),
     "C15": dict(level="exploration", engine="ENUM", ref="4/C15",
@@ -141,7 +145,8 @@ CHECKS = {
                      "the reachable set is one state and the search closes: purity for histories of any length over the alphabet. All ordered pairs and all "
                      "triples over a core run in long-lived processes as a defence against state the key cannot see; C and comma-decimal locale. Fresh reference "
                      "processes and history processes fill the stack below each call and fresh heap blocks with different bytes, so a result that depends on "
-                     "uninitialised memory differs by construction. Order invariance: the C03 argument product of every entry point (strided) is executed as one "
+                     "uninitialised memory differs by construction. Insertions into the built-in collection (names that sort last, first, in the middle; the caller's object overwritten and "
+                     "released afterwards) must read back as given, at once and after all further calls. Order invariance: the C03 argument product of every entry point (strided) is executed as one "
                      "sequence in natural order, reversed, and once per argument with that argument varying fastest; results are compared tuple by tuple. Every crystal "
                      "file of up to 5 (thorough 6) lines over an 8-line alphabet is read under the comma locale with locale and cwd compared after every call; the BFS itself runs under the comma locale. "
                      "Table immutability: the complete C03 argument product of every entry point (2.9e7 calls per configuration) runs in processes of the section-renamed build with the "
@@ -158,10 +163,10 @@ CHECKS = {
     "C17": dict(level="model_checking", engine="SCHED", ref="4/C17",
                 technique="preemption-bounded exhaustive schedule enumeration of the real library under a controlled scheduler over compiler-instrumented accesses; conflict (lockset) pass; free-running TSan cross-check",
                 text="The library is compiled with the ThreadSanitizer instrumentation pass and linked with an own runtime that sees every non-stack access and "
-                     "serialises real pthreads with a baton. For each of ~580 harnesses (all pairs of a 28-op colliding alphabet, 2x2 and 3x1 over a core, C and "
+                     "serialises real pthreads with a baton. For each of ~640 harnesses (all pairs of a 30-op colliding alphabet incl. modification of thread-private crystal collections, 2x2 and 3x1 over a core, C and "
                      "comma locale) a serial pass computes the contested locations (the library has no synchronisation, so one contested location is a data race) and "
                      "all schedules with at most 2 (thorough 3) preemptions over contested accesses, libc seams, op boundaries and library function entries are "
-                     "enumerated; every completed schedule must reproduce the serial results. The first schedule is replayed for determinism. In addition to the 28 "
+                     "enumerated; every completed schedule must reproduce the serial results. The first schedule is replayed for determinism. In addition to the 30 "
                      "hand-written ops every value-returning entry point is run against itself (two threads, two different succeeding / failing tuples from the C03 "
                      "product; ~900 generated ops over ~300 functions), so a static scratch variable or memo inside any function is a contested location.",
                 note="Sequential consistency (DRF-SC argument); memcpy/memset intrinsics and libc internals are not instrumented - the free-running 16-thread TSan "
